@@ -44,7 +44,7 @@ def values_for(name):
     if name == "CATEGORIES":
         return [("list", lambda: ["a", "b c"]), ("single", lambda: "single"), ("semi", lambda: ["x;y", "z"])]
     if typ == "TEXT":
-        return [("plain", lambda: "plain"), ("special", lambda: "a;b,c\nd"), ("empty", lambda: "")]
+        return [("plain", lambda: "plain"), ("special", lambda: "a;b,c\nd"), ("empty", lambda: ""), ("feff", lambda: "\ufeffx\u00a0")]
     if typ == "URI":
         return [("http", lambda: "http://example.com/x?y=1"), ("cid", lambda: "CID:abc")]
     if typ == "CAL-ADDRESS":
